@@ -558,6 +558,33 @@ func c05(c *Ctx) {
 		if n == 0 {
 			c.R.Unknown(load.FuncName(ir)+": checks", c.pos(ir.Pos()), "no ReadinessCheck.IsReady call found")
 		}
+		// no checks at all (nil or empty) means "ready when the Ready condition is true", never "ready unconditionally"
+		rcP := ir.Params[len(ir.Params)-1]
+		var none []cfgx.Edge
+		for _, lc := range cfgx.LenCmps(ir) {
+			if flow.Root(lc.Of) != ssa.Value(rcP) {
+				continue
+			}
+			t, f := lc.Edges()
+			if lc.Eval(0) && !lc.Eval(1) {
+				none = append(none, t...)
+			} else if !lc.Eval(0) && lc.Eval(1) {
+				none = append(none, f...)
+			}
+		}
+		bad := ""
+		if len(none) == 0 {
+			bad = "no test of len(checks) == 0"
+		} else {
+			for _, r := range cfgx.BoolReturnsFrom(none, 0) {
+				if r.NonNil && cfgx.IsNilConst(r.Val) == false {
+					if k, isC := cfgx.ConstBool(r.Val); isC && k {
+						bad = "returns true unconditionally at " + c.pos(r.At.Pos())
+					}
+				}
+			}
+		}
+		c.R.Check(bad == "", load.FuncName(ir)+": no checks falls back to the Ready condition", c.pos(ir.Pos()), "an empty list of checks is decided by the resource's Ready condition", "without readiness checks the resource is not judged by its Ready condition ("+bad+"): an empty, non-nil list runs no check and reports ready")
 	}
 }
 
